@@ -211,3 +211,21 @@ func HarnessC17Smoke(L int, isRef bool) {
 		verifCheck(0 <= e.Column && e.Column <= L, "column-in-pattern")
 	}
 }
+
+var verifDeprecatedTemplates = []string{"::set-output name=foo::bar", "::save-state name=foo::bar", "::set-env name=foo::bar", "::add-path::/x", "::set-output name=a::b ::add-path::c"}
+
+// HarnessC01RunScript: run: scripts that use the workflow-command syntax in
+// every letter-case spelling (symbolic case on every letter), through all
+// in-process rules including deprecated-commands: no panic.
+func HarnessC01RunScript() {
+	t := verifDeprecatedTemplates[verifChoose("template", len(verifDeprecatedTemplates))]
+	script := "echo \"" + verifCased("case", t) + "\""
+	s := yScalar
+	doc := yDoc(yMap(s("on"), s("push"), s("jobs"), yMap(s("j"), yMap(s("runs-on"), s("ubuntu-latest"), s("steps"), ySeq(yMap(s("run"), s(script)))))))
+	verifPlace(doc, 1, 0)
+	errs := verifLintNode(doc, verifRules())
+	verifReach("returned")
+	for _, e := range errs {
+		verifCheck(e.Line >= 1 && e.Column >= 1, "diagnostic-position-positive")
+	}
+}
